@@ -63,7 +63,7 @@ def bounds(tier):
     return {'call_groups': len(GROUPS), 'history': 'call; same call on the same argument objects'}
 
 
-GROUPS = ['uni', 'biv', 'gm', 'vine', 'optimize', 'misc', 'plots']
+GROUPS = ['uni', 'uni-ctor', 'biv', 'gm', 'vine', 'optimize', 'misc', 'plots']
 
 
 def cases(tier, seed):
@@ -77,7 +77,7 @@ def cases(tier, seed):
         out.append(('gm', c))
     for v in ('center', 'direct', 'regular'):
         out.append(('vine', v))
-    out += [('optimize', 0), ('misc', 0), ('plots', 2), ('plots', 3)]
+    out += [('optimize', 0), ('misc', 0), ('plots', 2), ('plots', 3), ('uni-ctor', 0)]
     out.sort(key=lambda c: c[0] not in ('vine', 'gm'))
     return out
 
@@ -147,6 +147,8 @@ def run_case(case):
     R = Runner(r, case)
     if kind == 'uni':
         _uni(R, case[1])
+    elif kind == 'uni-ctor':
+        _uni_constructor_args(R)
     elif kind == 'biv':
         _biv(R, case[1])
     elif kind == 'gm':
@@ -185,6 +187,26 @@ def _uni(R, mspec):
             d = m.to_dict()
             R.twice(f'uni:{name}.from_dict', type(m).from_dict, (d,), compare=False)
             R.twice(f'uni:{name}.Univariate.from_dict', U.Univariate.from_dict, (d,), compare=False)
+
+
+def _uni_constructor_args(R):
+    """Objects handed to a constructor stay the caller's: fit / sample / to_dict must leave them untouched."""
+    import copulas.univariate as U
+    x = uni.dataset(('gamma2', 3.0, 2.0, 40))
+    w = np.linspace(1.0, 3.0, len(x))                       # float64, does not sum to 1
+    m = U.GaussianKDE(weights=w, bw_method='silverman')
+    R.twice('uni:kde(weights=float64 ndarray).fit', m.fit, (x.copy(),), owned=(w,), compare=False)
+    R.twice('uni:kde(weights=float64 ndarray).probability_density', m.probability_density, (np.quantile(x, [0.1, 0.5, 0.9]),),
+            owned=(w,))
+    R.twice('uni:kde(weights=float64 ndarray).sample', m.sample, (4,), owned=(w,), reseed=lambda: m.set_random_state(3))
+    R.twice('uni:kde(weights=float64 ndarray).to_dict', m.to_dict, (), owned=(w,))
+    wl = [1.0, 2.0] * (len(x) // 2)
+    m2 = U.GaussianKDE(weights=wl)
+    R.twice('uni:kde(weights=list).fit', m2.fit, (x.copy(),), owned=(wl,), compare=False)
+    cands = [U.GammaUnivariate, U.GaussianKDE(bw_method=0.5), 'copulas.univariate.uniform.UniformUnivariate']
+    m3 = U.Univariate(candidates=cands)
+    R.twice('uni:Univariate(candidates=list).fit', m3.fit, (x.copy(),), owned=(cands,), compare=False)
+    R.twice('uni:Univariate(candidates=list).sample', m3.sample, (4,), owned=(cands,), reseed=lambda: m3.set_random_state(3))
 
 
 def _biv(R, fam):
@@ -387,6 +409,33 @@ def _plots(R, dim):
                                     f'Synthetic={wsyn}', case=R.case)
                 elif res and isinstance(res[0], zoo.Raised):
                     r.violation(f'C20:plots:compare_{dim}d:raises', f'{label}: raised {res[0].name}: {res[0].msg}', case=R.case)
+    # a frame with an extra, NOT plotted column that holds missing values: every row still has its plotted coordinates;
+    # and a synthetic frame that has only the plotted columns
+    base = {'p': [1.0, 2.0, 2.0, 4.0], 'q': [10.0, 20.0, 20.0, 5.0], 'r': [0.5, 0.25, 0.25, 8.0], 's': [7.0, 7.0, 7.0, 1.0]}
+    use = list(base)[:dim]
+    dfn = pd.DataFrame({c: base[c] for c in use})
+    dfn['note'] = [np.nan, 1.0, np.nan, 2.0]
+    want = sorted(map(tuple, dfn[use].to_numpy().tolist()))
+    label = f'plots:scatter_{dim}d(rows=4,extra column with NaN,columns=given)'
+    res = R.twice(label, scatter, (dfn,), {'columns': list(use)})
+    if res and not isinstance(res[0], zoo.Raised):
+        tp = trace_points(res[0])
+        if tp != {'Real': want}:
+            r.violation(f'C20:plots:scatter_{dim}d:wrong-points', f'{label}: traces {tp} but the data rows for {use} are {want}',
+                        case=R.case)
+    elif res:
+        r.violation(f'C20:plots:scatter_{dim}d:raises', f'{label}: raised {res[0].name}: {res[0].msg}', case=R.case)
+    syn = pd.DataFrame({c: [100.0 + 3 * i + k for i in range(3)] for k, c in enumerate(use)})
+    wsyn = sorted(map(tuple, syn[use].to_numpy().tolist()))
+    label = f'plots:compare_{dim}d(real has an extra column with NaN that synthetic lacks,columns=given)'
+    res = R.twice(label, compare, (dfn, syn), {'columns': list(use)})
+    if res and not isinstance(res[0], zoo.Raised):
+        tp = trace_points(res[0])
+        if tp != {'Real': want, 'Synthetic': wsyn}:
+            r.violation(f'C20:plots:compare_{dim}d:wrong-points', f'{label}: traces {tp}; expected Real={want}, Synthetic={wsyn}',
+                        case=R.case)
+    elif res:
+        r.violation(f'C20:plots:compare_{dim}d:raises', f'{label}: raised {res[0].name}: {res[0].msg}', case=R.case)
     if dim == 2:
         s = pd.Series([1.0, 2.0, 3.5, 2.2], name='v')
         R.twice('plots:dist_1d(Series)', V.dist_1d, (s,))
